@@ -368,6 +368,100 @@ object Service {
   }
 }
 `,
+			// fields carrying validation rules AND list rules at once: (buf.validate.field) and (j5.list.v1.field) have the
+			// same short name and the same index in their defining files, and a generated file has no source lines,
+			// so only the qualified name orders them (enum fields always get defined_only; `!` adds required).
+			// rules.in / rules.notIn lists of 4-5 values in an order that is neither the declaration order nor sorted:
+			// the compiled rule keeps the order the source lists them in.
+			"foo/v1/d.j5s": `package foo.v1
+
+object Listed {
+  | Listed has fields with validation and list rules.
+  | Second line of the description.
+
+  field status enum:Kind {
+    | the status
+    listRules.filtering.filterable = true
+  }
+  field inlineStatus enum {
+    option P
+    option Q
+    rules.in = ["Q"]
+    listRules.filtering.filterable = true
+  }
+  field name string {
+    | the name
+    rules.minLength = 1
+    listRules.searching.searchable = true
+  }
+  field count integer:INT64 {
+    rules.maximum = 5000000000
+    listRules.sorting.sortable = true
+  }
+  field flag ! bool {
+    listRules.filtering.filterable = true
+  }
+  field listedId ! key:id62 {
+    listRules.filtering.filterable = true
+  }
+  field since ! date {
+    listRules.filtering.filterable = true
+  }
+  field statuses array:enum:Kind {
+    rules.minItems = 1
+    items.enum.listRules.filtering.filterable = true
+  }
+  field wide enum:Wide {
+    rules.in = ["A5", "A2", "A6", "A1", "A4"]
+  }
+  field wides array:enum:Wide {
+    items.enum.rules.notIn = ["A6", "A3", "A1", "A5"]
+  }
+}
+
+enum Wide {
+  | Wide has six options.
+  option A1 | the first
+  option A2
+  option A3
+  option A4
+  option A5
+  option A6
+}
+
+enum Shade {
+  | Shades with info keys that differ in letter case only.
+
+  info hex {
+    label = "hex"
+  }
+  info Hex {
+    label = "Hex"
+  }
+  info HEX {
+    label = "HEX"
+  }
+  info area {
+    label = "area"
+  }
+  info Zone {
+    label = "Zone"
+  }
+  option RED {
+    info.hex = "ff0000"
+    info.Hex = "FF0000"
+    info.HEX = "#FF0000"
+    info.area = "a"
+    info.Zone = "z"
+  }
+  option BLUE {
+    | the blue one
+    info.Zone = "y"
+    info.HEX = "#0000FF"
+    info.hex = "0000ff"
+  }
+}
+`,
 			"bar/v1/a.j5s": `package bar.v1
 
 import foo.v1:foo
